@@ -20,6 +20,13 @@ CHECKS = {
    note="isqrt full 2^32/2^64 and gcd at full width are outside (no verdict within budget; see DESIGN 2)."),
 }
 
+E2NOTE = "llsym = own forking symbolic executor for the clang-14 -O0 + sroa,mem2reg IR of the real sources with z3 as decision procedure; validated every run against a native ASan build on sampled paths; findings are replayed natively before they are reported."
+CHECKS.update({
+ "C01": dict(engine="llsym", cat="model_checking", design="4/C01",
+   technique="symbolic execution of src/avl.c IR (llsym + z3): inductive step from every valid AVL shape up to a height bound with symbolic keys/victims, plus bounded histories from the empty tree",
+   text="Every insert/remove/search with a symbolic key or victim from every AVL tree of height <= 3 (20 shapes; thorough: height <= 4, 335 shapes), and every insert/remove pattern of length 5 (thorough 7) from the empty tree with symbolic keys; the solver partitions key space (all relative orders incl. duplicates). Full invariant oracle after every call.",
+   note=E2NOTE + " Packed parent word configuration (A_SIZE_POINTER == 8)."),
+})
 NOT_YET = {}
 
 def main():
